@@ -99,6 +99,8 @@ Definition check (c : case) : N :=
                        end in
     code (outcome_eqb pair_eqb (get_max_payload t ver rev dr) o)
          (negb (is_panic o)
+          (* values transcribed from the Regional Parameters (EU868, US915; 1.0.2 / 1.0.3 / 1.1) *)
+          && with_region cfg (fun reg => max_payload_value_ok reg (c_rep cfg) ver rev dr o)
           && match o with
              | Ok s =>
                size_wf s
